@@ -2,7 +2,7 @@
    AddressBech32Encoder/Decoder, bech32 0.9.1 bit regrouping, NonFungibleLocalId text form). *)
 From Coq Require Import List NArith Bool.
 Import ListNotations.
-Require Import RV.Model.C28_Bech32 RV.Model.C28_LocalId.
+Require Import RV.Model.C28_Bech32 RV.Model.C28_LocalId RV.Model.C28_GlobalId.
 Open Scope N_scope.
 
 Definition b32_code (e : b32_error) : N :=
@@ -41,6 +41,11 @@ Definition id_eqb (a b : local_id) : bool :=
   | _, _ => false
   end.
 
+Definition global_code (e : global_error) : N :=
+  match e with
+  | GInvalidResourceAddress => 200 | GRequiresTwoParts => 201 | GInvalidLocalId e => parse_code e
+  end.
+
 Inductive case :=
 | KEncode (suffix data : list N) (r : res enc_error (list N))
 | KDecode (suffix s : list N) (r : res dec_error (N * list N))
@@ -48,7 +53,9 @@ Inductive case :=
 | KFromBase32 (u5s : list N) (r : res b32_error (list N))
 | KLocalParse (s : list N) (r : res parse_error local_id)
 | KLocalPrint (id : local_id) (s : list N)
-| KUtf8 (s : list N) (valid : bool).
+| KUtf8 (s : list N) (valid : bool)
+| KGlobalParse (suffix s : list N) (r : res global_error (list N * local_id))
+| KGlobalPrint (suffix data : list N) (id : local_id) (r : res global_error (list N)).
 
 Definition check (c : case) : bool :=
   match c with
@@ -60,4 +67,8 @@ Definition check (c : case) : bool :=
   | KLocalParse s r => res_eqb parse_code id_eqb (from_str s) r
   | KLocalPrint id s => bytes_eqb (print id) s
   | KUtf8 s v => Bool.eqb (utf8_valid s) v
+  | KGlobalParse suffix s r =>
+    res_eqb global_code (fun a b => bytes_eqb (fst a) (fst b) && id_eqb (snd a) (snd b))
+      (global_from_str suffix s) r
+  | KGlobalPrint suffix data id r => res_eqb global_code bytes_eqb (global_print suffix data id) r
   end.
